@@ -250,6 +250,10 @@ class Validator:
             if not path or key not in d["__position__"]:
                 # position for the root object is stored in the root of the dict
                 pd = d["__position__"]
+                child = d.get(key) if path else None
+                if isinstance(child, dict) and "__position__" in child:
+                    # a nested block such as WEB or METADATA has its own position
+                    pd = child["__position__"]
             else:
                 pd = d["__position__"][key]
 
